@@ -137,6 +137,40 @@ PROPS["C15"] = {
     "assumptions": ["string literals shorter than 2^28 bytes", "decoder driver / collect() glue (not under contract)"],
 }
 
+PROPS["C03"] = {
+    "technique": "Verus step contracts on the extracted request-stream receive functions over the FrameStream contracts (unit frames) and its ghost log of frames handed out",
+    "text": "Unbounded deductive proof of step contracts from arbitrary well-formed pre-states under the documented call pattern: poll_recv_data hands out exactly the last bytes it consumed, inside a DATA payload, and lowers the payload counter by that much (with unit frames: every payload byte once, in order, never beyond the declared length, independent of chunking); of the frames taken in a call all but the last are empty DATA frames, a HEADERS frame ends the body and is kept as the trailer section, every other frame that reaches this layer is the connection error H3_FRAME_UNEXPECTED; end-of-body only at a clean end of the stream or at the trailers — never at an empty DATA frame; poll_recv_trailers: the first frame must be HEADERS, any frame after the trailer section is H3_FRAME_UNEXPECTED, a message is delivered only when the stream ended right after it, a pending wait keeps the section. First-frame rules (server accept_with_frame, client recv_response: non-HEADERS first ⇒ H3_FRAME_UNEXPECTED, FIN first ⇒ H3_REQUEST_INCOMPLETE / stream error) are in unit error_scope. Unknown frames never reach this layer and HTTP/2-reserved types arrive as ForbiddenFrame ⇒ H3_FRAME_UNEXPECTED (unit frames, [C02.stream.h2]).",
+    "note": "FrameStream/BufList contracts are included in assume mode from the same text unit frames/buf verify; escalation modelled as escalated(code) (the connection's single outcome, C05); qpack/header callees by deterministic outcome functions; history-level language lemma (U* H U* (D U*)* (H U*)? FIN) is read off the step contracts, not mechanised.",
+    "design_ref": "§4 C03",
+    "trusted_base": COMMON_TB + ["unit frames / buf contracts (assumed here, proved there)", "error helper contracts ASSUMED-FROM-UNIT error_scope", "documented call pattern as precondition (recv_data until None, then recv_trailers)"],
+    "assumptions": ["application follows the documented call pattern", "transport chunks are never empty"],
+}
+PROPS["C06"] = {
+    "technique": "Union of the panic / overflow / index / unwrap / assert! obligations Verus generates for every function under contract in all units, plus Kani totality harnesses on the leaf decoders; 'no Pending after the peer is done' as postconditions",
+    "text": "Every extracted function is verified with Verus' default obligations on: arithmetic overflow, slice/VecDeque indexing, unwrap/expect, assert!/unreachable! are proof obligations, so a new reachable panic in any function under contract fails its unit and is attributed here. The leaf decoders (VarInt, prefix_int, Huffman step, HeaderBlockField, Datagram::decode, SessionId::decode) are proved panic-free over full symbolic inputs by Kani. Completion: every poll function under contract ensures that it does not answer Pending once the transport has signalled the end (old eos ⇒ not Pending) and that every Pending answer follows a Pending answer of the transport in the same call (a waker is registered). PARTIAL: that the executor re-polls (fairness) and functions not under contract are outside the claim.",
+    "note": "Functions not under contract: tests, examples, h3-webtransport forwarding impls, h3-datagram handler plumbing, tracing, Debug/Display, builders' async setup beyond what C13's harnesses cover. Loops that end on Pending are proved for partial correctness. Preconditions from the documented call pattern (C03) exclude application misuse.",
+    "design_ref": "§4 C06, §6",
+    "trusted_base": COMMON_TB + ["the trusted bases of every unit it aggregates"],
+    "assumptions": ["fairness: a registered waker leads to a re-poll", "inputs below the stated size bounds (2^50 / 2^28 bytes)", "transport chunks are never empty"],
+}
+PROPS["C14"] = {
+    "technique": "Kani full-domain harnesses for every byte h3 encodes (frame headers, stream headers, grease, WriteBuf as a Buf under any advance pattern); Verus for the adapter write loop and the send sites' ghost logs",
+    "text": "Complete proofs by CBMC: each From impl of WriteBuf produces exactly varint(type) ++ varint(length) ++ … with the length field equal to the payload's remaining(), every frame constructor the API can send, stream type headers 0/2/3/0x41/0x54 and grease, all reserved identifiers of the 0x1f*N+0x21 form below 2^62, never an HTTP/2-reserved frame type or setting id; impl Buf for WriteBuf exposes header bytes then payload, nothing skipped or repeated, under any two advances and chunk-wise draining; the 64-byte buffer never overflows (SETTINGS worst case in C13's harness). Partial acceptance by the transport: the Quinn adapter's write loop conserves and completes the buffer for every sequence of accepted counts (unit quinn_adapter). Stream-level sequencing is covered where units state it: at most one HEADERS frame per send call and only within the peer's limit (unit size_limit_sites), GOAWAY frames with non-increasing ids only (unit server_accept). NOT a single history-level proof of 'control stream = SETTINGS first, then only allowed frames': the set of writers of the control stream is read off the code.",
+    "note": "Content-free mock payload Buf of symbolic length; fastrand stubbed to any value in range; four harnesses holding a real Bytes are bounded stand-ins (HEADERS / PUSH_PROMISE payload <= 16400 or 80 bytes) and not counted as proved; PushPromise is never constructed for sending.",
+    "design_ref": "§4 C14",
+    "trusted_base": ["Kani 0.68 / CBMC 6.11; rustc", "kani/_spec.rs spec_frame_hdr, spec_is_grease, spec_varint_enc", "fastrand stub", "units quinn_adapter, size_limit_sites, server_accept (their trusted bases)"],
+    "assumptions": ["payload remaining() < 2^62", "writers of the control stream are ConnectionInner::new / send_control_stream_headers / shutdown (read off the code)"],
+}
+
+PROPS["C01"] = {
+    "technique": "Composition: the sender-side contracts (C14 Kani byte images, C11 encode, C12 iteration) and the receiver-side contracts (C02 frame layer, C03 request stream, C11 decode, C12 parse) are both stated against the same spec functions; Verus lemmas (unit e2e) show the two frame-level halves are inverse on the wire format",
+    "text": "No separate code contracts. Mechanised: (1) every unit of C02/C03/C10-C12 that carries C01 in its props (buf, frames, request_stream, qpack_stateless, headers) — chunk independence comes from verifying the frame layer against the Buf contract only, partial-write independence from the adapter's write loop (C17) and WriteBuf as a Buf (C14); (2) unit e2e: varint round trip (venc/vdec, tied to the Kani oracle by c16_spec_renderings_agree), and for the sender's bytes varint(type) ++ varint(|p|) ++ p followed by anything, the receiver's predicates (skip_unknown / decoded_as / frame_len) single out exactly HEADERS with the same section, DATA with exactly the payload length followed by the payload, and skip interleaved reserved-type frames in full; (3) QPACK: [C11.enc] and [C11.dec] are both relative to spec_field_section, so decode(encode(fields)) == fields in order; headers: [C12.order.exact] with [C12.parse.exact]/[C12.fields.assembled]. ARGUED, not mechanised: the message-level induction over DATA frames and the final 'exactly one clean end' (read off [C02.eos.clean], [C03.eob.cause], [C03.trailers.end]); independence from task interleaving rests on ownership (C07).",
+    "note": "Relative to the http contracts of C12 (per-name order through HeaderMap), the Huffman string codec contract (C15) and the callee contracts each unit assumes; body length bound none (< 2^62).",
+    "design_ref": "§4 C01",
+    "trusted_base": COMMON_TB + ["the trusted bases of C02, C03, C10, C11, C12, C14, C15, C17", "kani/_spec.rs = units/inc/vdec.rs, venc.rs (tied by c16_spec_renderings_agree)"],
+    "assumptions": ["message-level induction and the single clean end are read off the step contracts", "task interleavings: ownership argument of C07"],
+}
+
 NOT_YET = "unit not built yet in this round (see DESIGN §8 order of work)"
 for _id in ["C01", "C02", "C03", "C04", "C05", "C06", "C07", "C08", "C09", "C10", "C11", "C12", "C13", "C14", "C15", "C17", "C18", "C19"]:
     PROPS.setdefault(_id, {"not_applicable": NOT_YET})
